@@ -174,3 +174,4 @@ def check(ctx):
     shared.cancel_state_encoding(ctx)
     shared.cancel_api_forwarding(ctx)
     shared.mutex_cancel_arm_rules(ctx)
+    ctx.import_rules("C02", r"^(sync-blocker|blocker|fast-blocker|thread-park)/")
